@@ -59,6 +59,12 @@ def cases(tier, seed):
                     if tier == 'quick' and k % 3 != seed % 3:
                         continue
                     cs.append(dict(o, fam='fault', T=T, conn=conn, at=label))
+    # well-formed but degenerate probe answers (the server stays connected afterwards): parsing succeeds, arithmetic fails
+    from harness import wire as _w
+    for pv, gv in ((3, 2), (5, 2), (0, 2), (1, 1), (6, 0)):
+        cs.append({'fam': 'fault', 'T': 'T3', 'op': 'crafted', 'conn': 'probe', 'at': 'gexgroup', 'what': 'degenerate-group:p=%d' % pv, 'hex': _w.packet(_w.gex_group(pv, gv)).hex()})
+    for what, blob in (('rsa-zero-modulus', _w.string('ssh-rsa') + _w.mpint(65537) + _w.mpint(0)), ('type-only', _w.string('ssh-rsa')), ('empty-blob', b'')):
+        cs.append({'fam': 'fault', 'T': 'T2', 'op': 'crafted', 'conn': 'probe', 'at': 'kexreply', 'what': 'hostkey:' + what, 'hex': _w.packet(_w.kex_reply(31, blob)).hex()})
     for beh in ('normal', 'accept-close', 'silent', 'stop-listening', 'exceeded', 'slow', 'garbage'):
         for rep_ in range(2 if tier == 'quick' else 10):
             cs.append({'fam': 'rate', 'behaviour': beh, 'gex': rep_ % 2 == 1})
@@ -260,3 +266,17 @@ def run_case(c):
     return {'violations': uniq, 'counters': counters, 'nontrivial': counters.get('sockets_created', 0) > 0 and counters.get('connections_logged', 0) > 0,
             'sample': {'case': c, 'status': r.status, 'sockets_created': counters.get('sockets_created'), 'peer_connections': counters.get('connections_logged'), 'max_concurrency': counters.get('max_concurrency_seen')},
             'sample_kind': fam + str(c.get('behaviour', ''))}
+
+
+def extra_evidence(results):
+    by = {}
+    for r in results:
+        smp = r.get('sample') or {}
+        c = r.get('case') or {}
+        k = c.get('fam', '?') + (':' + c['behaviour'] if c.get('behaviour') else '')
+        d = by.setdefault(k, {'audits': 0, 'sockets_created': 0, 'peer_connections': 0, 'max_sockets_in_one_audit': 0})
+        d['audits'] += 1
+        d['sockets_created'] += smp.get('sockets_created') or 0
+        d['peer_connections'] += smp.get('peer_connections') or 0
+        d['max_sockets_in_one_audit'] = max(d['max_sockets_in_one_audit'], smp.get('sockets_created') or 0)
+    return {'observed_by_family': by}
